@@ -39,7 +39,7 @@ def random_materials(rng, attenuation=False):
 
 
 def immersion_setup(rng, numelements=None, numscat=None, max_refl=1, wall_points=None, tilt_deg=None,
-                    attenuation=False, trace=True, aligned=False, offset=None):
+                    attenuation=False, trace=True, aligned=False, offset=None, scat_y=0.0):
     """A block in immersion with a tilted linear probe above z=0, back wall at z=depth,
     scatterers inside; returns a dict with materials, probe, interfaces, paths (rays
     traced by arim's own ray tracing when trace=True), views, exam_obj."""
@@ -75,7 +75,8 @@ def immersion_setup(rng, numelements=None, numscat=None, max_refl=1, wall_points
     sz = rng.uniform(0.15 * depth, 0.85 * depth, size=numscat)
     if aligned:
         sx[0] = 0.0
-    scat_points = arim.Points(np.stack([sx + ox, np.zeros(numscat) + oy, sz + oz], axis=1), "Scatterers")
+    # (scat_y: the targets in another slice y = const than the array and the walls -- a 3-D scene made of planar sets)
+    scat_points = arim.Points(np.stack([sx + ox, np.zeros(numscat) + oy + float(scat_y), sz + oz], axis=1), "Scatterers")
     scat = arim.geometry.OrientedPoints(scat_points, arim.geometry.default_orientations(scat_points))
     exam_obj = arim.BlockInImmersion(block, couplant, frontwall, backwall, scat)
     probe_op = probe.to_oriented_points()
